@@ -19,6 +19,7 @@ from __future__ import annotations
 import json
 import os
 import random
+import signal
 
 from vf.core.obs import Obs, cpu_guard, CpuBudget, exc_sig
 from vf.core import anchors
@@ -43,13 +44,13 @@ ASSUMPTIONS = [
     "two readings of the redirect clause are both accepted: one-hop after the inclusion fixpoint (lower bound) and the joint least "
     "fixpoint (upper bound); results strictly between are counted, not reported",
     "name resolution of used names follows the page-store title rules as stated in C10; leading/trailing blanks in names are not generated",
-    "per-analysis CPU budget 6 s (ITIMER_VIRTUAL; a normal analysis takes < 5 ms) stands for 'terminates'; a shard stops after 4 "
+    "per-analysis CPU budget 3 s (ITIMER_VIRTUAL; a normal analysis takes < 5 ms) stands for 'terminates'; a shard stops after 3 "
     "budget overruns",
     "marks are read with get_all_pages (uncached); the memoised get_page view is property C10/C13",
 ]
 WALL = {"quick": 900, "thorough": 5400}
-BUDGET = 6.0
-MAX_OVERRUNS = 4
+BUDGET = 3.0
+MAX_OVERRUNS = 3
 NSH = 16
 RANDOM_PER_SHARD = {"quick": 1000, "thorough": 19000}
 EXH3_SAMPLE_PER_SHARD = {"quick": 500, "thorough": 0}
@@ -117,6 +118,9 @@ def run_rounds(rounds, sql=None):
             calls = []
             try:
                 with cpu_guard(BUDGET):
+                    # cpu_guard arms a one-shot timer; an alarm that lands inside a callback whose caller swallows
+                    # exceptions (sqlite trace callback) would be lost -> re-arm it as a repeating timer
+                    signal.setitimer(signal.ITIMER_VIRTUAL, BUDGET, 0.25)
                     ctx.analyze_templates(_classifier(table, calls))
             except BaseException as e:
                 e.round = k
